@@ -7,19 +7,19 @@ HOOK_COMMITS = ["7fd8a4f"]  # fix commits (unguarded): 59fc98c (D1), a6495b1 (D2
 # id -> (category, technique, level text, level note, design ref)
 CHECKS = {
  "C01": ("exploration", "runtime monitoring: online reference-model oracle (independent bit-array BIP39 encoder over frozen golden lists) on every NewMnemonicByEntropy call of a generated workload run in child processes",
-         "Every (word position, 11-bit index) pair of the first n-1 words, every SHA-256 first-byte value at every checksum width, all bit/byte boundary runs, runs of ones/zeros at every offset, byte-value sweeps, sentences made of the longest and shortest list words, seeded random entropies and in-process call histories are executed for all 10 languages x 5 sizes and each returned string is compared byte-for-byte with the reference sentence (separator rule included). Held-on-what-was-observed, with the factor coverage measured and written to the evidence.",
+         "Every (word position, 11-bit index) pair of the first n-1 words, every SHA-256 first-byte value at every checksum width, all bit/byte boundary runs, runs of ones/zeros at every offset, byte-value sweeps, sentences made of the longest and shortest list words, seeded random entropies, in-process call histories (incl. many distinct encodings repeated), entropies passed in recycled and shared caller-owned buffers, and a concurrent flavour with both generators as bystanders are executed for all 10 languages x 5 sizes and each returned string is compared byte-for-byte with the reference sentence (separator rule included). Held-on-what-was-observed, with the factor coverage measured and written to the evidence.",
          "Trusted: golden lists (English digest = published digest), crypto/sha256, the harness reference encoder (self-tested on published vectors). The 2^128..2^256 entropy space itself is sampled, not enumerated.",
          "DESIGN.md section 5, C01"),
  "C02": ("exploration", "runtime monitoring: generate->check pairs executed in child processes; acceptance oracle on the implementation's own output and on reference-encoded sentences",
-         "The C01 corpus (every list word at every position, 1..32 leading zero bytes, all-ones, boundary runs, longest/shortest-word sentences, byte-value sweeps, random) is encoded and fed straight back into CheckMnemonic/IsMnemonicValid in the child; the reference encoder's sentence for the same entropy is validated too, so a compensating encoder/validator bug pair cannot hide; NewMnemonic output from default and scripted sources included.",
+         "The C01 corpus (every list word at every position, 1..32 leading zero bytes, all-ones, boundary runs, longest/shortest-word sentences, byte-value sweeps, random) is encoded and fed straight back into CheckMnemonic/IsMnemonicValid in the child; the reference encoder's sentence for the same entropy is validated too, so a compensating encoder/validator bug pair cannot hide; NewMnemonic output from default and scripted sources included; histories of the other functions' calls, a valid sentence allocated at the address of a just-rejected one (address reuse), generate-and-check from adjacent windows of one buffer under concurrency.",
          "Trusted: golden lists, reference encoder. Sampled entropy space; emphasis classes counted in the evidence.",
          "DESIGN.md section 5, C02"),
  "C03": ("exploration", "runtime monitoring: hostile validation workload judged by an independent reference validator (CPython NFKD, golden lists, SHA-256); accept-set size tallies per prefix",
-         "For fixed prefixes all 2048 final words (accepted set must be exactly the reference's, size 2^(11-n/3)), all 2047 substitutions at every position, transpositions, count changes 0..30, other lists' words and sentences, case/affix/white-space damage, every list word with an affix, checksum-bit flips, byte fuzz incl. invalid UTF-8, and in-process histories (a sentence accepted, then asked under other languages / spellings / with one word changed): any accepted string must be reference-valid and IsMnemonicValid must equal (CheckMnemonic == nil).",
+         "For fixed prefixes all 2048 final words (accepted set must be exactly the reference's, size 2^(11-n/3)), all 2047 substitutions at every position, transpositions, count changes 0..30, other lists' words and sentences, case/affix/white-space damage, every list word with an affix, checksum-bit flips, byte fuzz incl. invalid UTF-8, a valid sentence next to one huge token (4 KiB..1 MiB, thorough 16 MiB), separators that bring a combining mark (every code point whose NFKD is space+marks), address reuse (a wrong-checksum sentence at the address of a just-accepted one), and in-process histories (a sentence accepted, then asked under other languages / spellings / with one word changed; fail-then-succeed pairs; cache-wrap repetitions): any accepted string must be reference-valid and IsMnemonicValid must equal (CheckMnemonic == nil).",
          "Only 'accepted => reference-valid' is asserted on arbitrary strings; 'reference-valid => accepted' only inside last-word sweeps. Trusted: CPython unicodedata, golden lists.",
          "DESIGN.md section 5, C03"),
  "C04": ("exploration", "runtime monitoring: per-call oracle = PBKDF2 written out over crypto/hmac with CPython's NFKD (independent of x/crypto and x/text); freshness observed by clobbering a second result and comparing backing arrays",
-         "Seeds for empty/ASCII/valid/invalid mnemonics of all languages, lengths around and beyond the HMAC block (to 1 MiB), four normal forms, compatibility characters, reordering marks, leading marks, Hangul, random Unicode, every decomposing code point and combining mark once (thorough: every assigned code point), every byte length 0..300 and in-process histories (identical arguments, the same concatenation split elsewhere) are compared with the reference; one case in eight observes freshness (two calls, clobber, third call). Known finding D3 (inputs with > 30 consecutive non-starters) is listed by exact witness.",
+         "Seeds for empty/ASCII/valid/invalid mnemonics of all languages, lengths around and beyond the HMAC block (to 1 MiB), four normal forms, compatibility characters, reordering marks, leading marks, Hangul, random Unicode, every decomposing code point and combining mark once (thorough: every assigned code point), every byte length 0..300 special code points (U+FFFD, BOM, noncharacters) next to decomposable text, address reuse, and in-process histories (identical arguments, the same concatenation split elsewhere, the other functions' calls in between, cache-wrap repetitions) are compared with the reference; one case in eight observes freshness (two calls, clobber, two garbage collections, third call); the child wipes every seed it is given. Known finding D3 (inputs with > 30 consecutive non-starters) is listed by exact witness.",
          "Oracle domain: CPython-assigned code points, non-starter runs <= 25. Trusted: CPython unicodedata, crypto/hmac, crypto/sha512.",
          "DESIGN.md section 5, C04"),
  "C05": ("exploration", "runtime monitoring: independent bit-array decoder applied to every returned sentence; run-wide collision map; all single-bit flips of base entropies",
@@ -27,23 +27,23 @@ CHECKS = {
          "Trusted: golden lists, reference decoder. Sampled entropy space; all bit positions of each width are flipped.",
          "DESIGN.md section 5, C05"),
  "C06": ("fault_enumeration", "runtime monitoring with fault injection: scripted randomness source installed through the verif hook; source-side event log (every Read) compared with the call's result",
-         "Every failure point k in 0..4n/3-1 for each n x 13 failure kinds (EOF, unexpected EOF, custom, EINTR, EAGAIN, PathError, Temporary/Timeout, deadline, ErrNoProgress, ErrShortBuffer, ErrClosedPipe, wrapped EOF; sticky) x {error alone, alongside the last bytes} plus plain end of data, each under several fragmentations, must give (\"\", non-nil error); successes under the same fragmentations must equal the reference encoding of the first 4n/3 delivered bytes with n words. The failure matrix must be complete or the run is inconclusive.",
+         "Every failure point k in 0..4n/3-1 for each n x 13 failure kinds (EOF, unexpected EOF, custom, EINTR, EAGAIN, PathError, Temporary/Timeout, deadline, ErrNoProgress, ErrShortBuffer, ErrClosedPipe, wrapped EOF; sticky) x {error alone, alongside the last bytes} plus plain end of data, each under several fragmentations, must give (\"\", non-nil error); successes under the same fragmentations must equal the reference encoding of the first 4n/3 delivered bytes with n words. Also: sources that stay installed over many calls and fail transiently (10 kinds incl. panics) or are handed over inside standard wrappers (bufio, MultiReader, LimitedReader, OneByteReader), slow sources during whose reads a garbage collection completes, and goroutines calling at the same time on one shared failing source (each call judged by its own goroutine's reads). The failure matrix must be complete or the run is inconclusive.",
          "The error-alongside-the-completing-read corner accepts either outcome. Trusted: the hook, the harness's scripted reader, reference encoder.",
          "DESIGN.md section 5, C06"),
  "C07": ("exploration", "runtime monitoring of fresh processes at three boundaries: identity of the pre-swap source (hook), interposition on crypto/rand.Reader before package init (with fault injection and, under the race detector, per-goroutine attribution of reads), strace of getrandom(2); plus duplicate/uniformity statistics",
-         "In processes that swapped nothing the source must be crypto/rand.Reader itself; with the interposer every sentence must decode to exactly the bytes crypto/rand.Reader delivered during that call (also when reads are fragmented, when one read fails - then ("", error) is required - and when 4-16 goroutines call concurrently); un-hooked processes under strace must decode to getrandom buffers; no duplicate entropy across processes; monobit/chi-square sanity.",
+         "In processes that swapped nothing the source must be crypto/rand.Reader itself; with the interposer every sentence must decode to exactly the bytes crypto/rand.Reader delivered during that call (also when reads are fragmented, when one read fails - then ("", error) is required - and when 4-16 goroutines call concurrently); un-hooked processes under strace must decode to getrandom buffers; no duplicate entropy across processes; monobit/chi-square sanity. The sentence must be the BIP39 encoding of the delivered bytes or what the tree's own NewMnemonicByEntropy makes of them in the same process; held mnemonics are re-read at the end of the process; bystander calls of the other functions and goroutines recycling caller-owned buffers run alongside; the interposer can fragment, fail, deliver zeros, collect garbage before each fragment, or panic.",
          "Trusted: Go package initialisation order (checked at run time: if the interposer is not captured the layer is reported inconclusive), strace visibility of getrandom with go1.23. Statistical thresholds have false-alarm probability < 1e-11.",
          "DESIGN.md section 5, C07"),
  "C08": ("exploration", "runtime monitoring over a finite domain enumerated completely: word emitted per (language, index) through the API vs frozen golden lists; validation verdicts on crafted sentences; parsed source literals",
-         "All 10 x 2048 list entries are observed through NewMnemonicByEntropy (two positions), compared byte-for-byte with the golden lists, checked for distinctness/non-emptiness/no white space/NFKD stability; four accepting sentences and four neighbour-substituted sentences per word check the reverse map; internal/wordlist/*.go literals compared. exhaustive: true.",
+         "All 10 x 2048 list entries are observed through NewMnemonicByEntropy (two positions), compared byte-for-byte with the golden lists, checked for distinctness/non-emptiness/no white space/NFKD stability; four accepting sentences, a one-word sentence and four neighbour-substituted sentences per word check the reverse map (a word is blamed only when the failures are explained by it); the lists are also read back through one caller-owned buffer holding all 2048 entropies, through a recycled buffer, after a history of failed validations, under GOMAXPROCS values that do not divide 2048, and under concurrency; internal/wordlist/*.go literals compared. exhaustive: true.",
          "Canonicity rests on the golden snapshot (extracted from the pinned commit; only the English digest could be tied to public knowledge offline).",
          "DESIGN.md section 5, C08"),
  "C09": ("exploration", "runtime monitoring: size/count sweeps with sentinel classification (errors.Is in the child) and byte counting at scripted and interposed sources",
-         "nil and every entropy length 0..1024 (thorough 0..8192, to 16 MiB) and every word count in [-300,300] (thorough [-5000,5000]) plus int extremes and truncation-congruent values, each with working, failing and default sources: accepted sets must be exactly {16,20,24,28,32} and {12,15,18,21,24}; rejections must be (\"\", sentinel) and consume no randomness.",
+         "nil and every entropy length 0..1024 (thorough 0..8192, to 16 MiB) and every word count in [-300,300] (thorough [-5000,5000]) plus int extremes and truncation-congruent values, each with working, failing and default sources: accepted sets must be exactly {16,20,24,28,32} and {12,15,18,21,24}; rejections must be (\"\", sentinel) and consume no randomness; also inside histories, on sources that stay installed and fail transiently, and under concurrency (a successful call returns the requested number of words).",
          "Trusted: errors.Is against the package's exported sentinels evaluated in the child; hook and interposer for byte counting.",
          "DESIGN.md section 5, C09"),
  "C10": ("exploration", "runtime monitoring: metamorphic oracle — pairs of spellings whose NFKD forms are equal according to CPython must get the same CheckMnemonic verdict",
-         "Every list word of every language at every word count, in NFC/NFD/NFKC/NFKD/single-code-point pre-images (full-width, ligatures, precomposed, Hangul syllables, compatibility ideographs)/mixed, with U+0020, U+3000 and other space-like separators; near-miss sentences (wrong checksum, unknown word, a separator too many in every position); random Unicode strings with their normal forms; in-process histories (a spelling under one language, then another, each followed by its NFKD spelling). Coverage of all non-trivial (language, word, form) triples is required.",
+         "Every list word of every language at every word count, in NFC/NFD/NFKC/NFKD/single-code-point pre-images (full-width, ligatures, precomposed, Hangul syllables, compatibility ideographs)/mixed, with U+0020, U+3000 and other space-like separators; near-miss sentences (wrong checksum, unknown word, a separator too many in every position); random Unicode strings with their normal forms; in-process histories (a spelling under one language, then another, each followed by its NFKD spelling; the other functions' calls in between; up to 2500 distinct spellings and then the same ones again). Coverage of all non-trivial (language, word, form) triples is required.",
          "Precondition decided by CPython (pairs failing it are skipped and counted). Domain: assigned code points, non-starter runs <= 25.",
          "DESIGN.md section 5, C10"),
  "C11": ("exploration", "runtime monitoring: metamorphic oracle — (mnemonic, passphrase) pairs with component-wise equal NFKD forms (CPython) must give identical seeds; baseline also compared with the reference seed",
@@ -55,11 +55,11 @@ CHECKS = {
          "Trusted: the race detector's happens-before analysis; schedules are those the OS produces. Calibrated on nil-check, double-checked-locking and shared-scratch mutants.",
          "DESIGN.md section 5, C12"),
  "C13": ("exploration", "runtime monitoring of call histories in fresh processes: history-free reference model, solo re-execution of each call in its own fresh process, caller-owned buffer re-inspection, end-of-sequence re-read of retained results",
-         "Every ordered pair of first-used languages (own process each) followed by probes on all languages, ten kinds of failing/unsupported first calls x ten languages, memo-hunting patterns, canary-filled spare capacity behind entropy slices, and seeded random sequences of 100-300 calls over all functions/languages incl. failures, repeated inputs and reused entropy buffers.",
+         "Every ordered pair of first-used languages (own process each) followed by probes on all languages, ten kinds of failing/unsupported first calls x ten languages, memo-hunting patterns, canary-filled spare capacity behind entropy slices, seeded random sequences of 100-300 calls over all functions/languages incl. failures, repeated inputs and reused entropy buffers, fail-then-succeed pairs, idle periods with forced collections, cache-wrap repetitions (20..2500 distinct calls, then again), one call repeated 70 000 times, sources that stay installed and fail or panic, retained error values re-read at the end, and a concurrent flavour with all functions mixed.",
          "NewMnemonic on the default source is checked for validity only. Calls on unsupported Language values are compared with their solo execution only.",
          "DESIGN.md section 5, C13"),
  "C14": ("exploration", "runtime monitoring for crashes and hangs: each hostile call is announced before it is made in a child process; recovered panics, process deaths, CPU-budget and memory watchdogs are attributed to the call in flight",
-         "Every function/method x hostile Language values, all token counts, nil/short/huge entropy, int extremes for word counts with five kinds of source, a valid sentence frame with one hostile token of every length 1..130 runes, and string shapes up to 1 MiB (thorough 16 MiB): invalid UTF-8 of every shape, NUL, huge tokens, 10^6 tokens, long combining runs, U+FDFA, Hangul, unassigned code points, seeded splices.",
+         "Every function/method x hostile Language values, all token counts, nil/short/huge entropy, int extremes for word counts with five kinds of source, a valid sentence frame with one hostile token of every length 1..130 runes, and string shapes up to 1 MiB (thorough 16 MiB): invalid UTF-8 of every shape, NUL, huge tokens, 10^6 tokens, long combining runs, U+FDFA, Hangul, unassigned code points, seeded splices; plus memo-hunting histories, runs of 1500 default-source calls with mixed sizes and of thousands of distinct ordinary calls of each function in one process, and a concurrent flavour.",
          "A hang is CPU > 10 s + 8 s/MiB of arguments (16x worst measured) or not returning when run alone; wall-clock alone never decides.",
          "DESIGN.md section 5, C14"),
  "C15": ("exploration", "runtime monitoring: single-defect sentences built by the parent; error class reported by the child via errors.Is; message checked for the unknown token",
